@@ -248,11 +248,17 @@ def r4_label_codec(idx, r):
     r.require(len(set(widths.values())) == 1, "encoder-field-width-constant", enc,
               msg=f"the encoder renders one field per character with width {sorted(set(widths.values()))} over the admissible alphabet (codes {min(map(ord, labels))}..{max(map(ord, labels))}); the decoder cannot split a number whose fields have different widths")
     dec = idx.func(f"{M}.getXSTypeLabelFromNumber")
-    two = next((n for n in walk_local(dec.node) if isinstance(n, ast.If) and isinstance(n.test, ast.Compare) and norm(n.test.left) == "xsTypeNumber" and isinstance(n.test.ops[0], ast.Gt)), None)
+    two = next((n for n in walk_local(dec.node) if isinstance(n, ast.If) and isinstance(n.test, ast.Compare) and norm(n.test.left) == "xsTypeNumber" and isinstance(n.test.ops[0], (ast.Gt, ast.GtE))), None)
     if two is None:
         raise AnalysisError("decoder threshold not found")
     thr = two.test.comparators[0]
     thrv = ord(thr.args[0].value) if isinstance(thr, ast.Call) and dotted(thr.func) == "ord" else idx.fold(m, thr)
+    if isinstance(two.test.ops[0], ast.GtE):
+        thrv -= 1  # n >= t  is  n > t - 1
+    upper_max = max(ord(c) for c in labels if c.isupper())
+    r.require(thrv >= upper_max, "decoder-uppercase-range", dec, node=two.test,
+              msg=f"numbers above {thrv} are decoded as two-character labels, but the single upper-case labels encode up to {upper_max} ('{chr(upper_max)}'): "
+                  f"'{chr(upper_max)}' does not convert back")
     single_max = max(ord(c) for c in labels)
     r.require(thrv >= single_max, "decoder-single-label-range", dec, node=two.test,
               msg=f"numbers above {thrv} are decoded as two-character labels, but single admissible labels encode up to {single_max}: they do not convert back")
@@ -400,6 +406,25 @@ def r9_weight_homogeneous(idx, r):
     r.undecided("weight:degree-1-in-the-weighting-parameter", f, f"`{norm(e)[:60]}` neither proved nor refuted", node=ws[0])
 
 
+def r10_similarity_scans_all(idx, r):
+    """By-component averaging is only valid when ALL members have matching components. _checkBlockSimilarity may answer
+    False as soon as one mismatch is found, but True only after the scan over all members has completed: a `return True`
+    inside the body of the loop over the members (e.g. attached to the INNER loop's else) answers after the first member."""
+    f = idx.method(M + ".AverageBlockCollection", "_checkBlockSimilarity")
+    if f is None:
+        raise AnchorMissing("AverageBlockCollection._checkBlockSimilarity")
+    outer = [n for n in f.node.body if isinstance(n, ast.For) and any(isinstance(x, ast.For) for x in ast.walk(ast.Module(body=n.body, type_ignores=[])))]
+    if len(outer) != 1:
+        raise AnalysisError(f"_checkBlockSimilarity: {len(outer)} nested member scans found")
+    lp = outer[0]
+    inside = [x for st in lp.body for x in ast.walk(st) if isinstance(x, ast.Return) and isinstance(x.value, ast.Constant) and x.value.value is True]
+    r.require(not inside, "true-only-after-complete-scan", f, node=inside[0] if inside else lp,
+              msg="`return True` sits inside the loop over the members: similarity is affirmed after the first member that matches the reference, a dissimilar member "
+                  "further on is never compared, and non-matching components are averaged together")
+    after = [x for st in lp.orelse + f.node.body[f.node.body.index(lp) + 1:] for x in ast.walk(st) if isinstance(x, ast.Return)]
+    r.require(any(isinstance(x.value, ast.Constant) and x.value.value is True for x in after), "true-after-scan", f, node=lp, msg="a completed scan without mismatch must answer True")
+
+
 def run(idx, chk):
     chk.explanation = (
         "C20: every weighted mean in the block-collection classes is typed with a role generator W for the weights: the result must be of degree "
@@ -426,3 +451,5 @@ def run(idx, chk):
                  necessary="'each nuclide density ... per matching component is the weight-normalised mean of the members' values'")
     chk.run_rule("R20.9", "a block's weight scales with its weighting parameter (degree 1; clamps refuted by exact evaluation)", lambda r: r9_weight_homogeneous(idx, r), floor=1,
                  necessary="means are 'unchanged by ... rescaling all weights'")
+    chk.run_rule("R20.10", "block similarity is affirmed only after every member was compared", lambda r: r10_similarity_scans_all(idx, r), floor=2,
+                 necessary="'per matching component': components are averaged by position only when all members match")
